@@ -31,6 +31,7 @@ for sid in ids:
             env = dict(os.environ, VERIF_REPO=wt)
             p = subprocess.run([os.path.join(ROOT, "check"), pid], cwd=ROOT, env=env, capture_output=True, text=True)
             vio = [l for l in p.stdout.split("\n") if l.startswith("VIOLATION")]
+            if p.returncode != 0 and not vio: print("  check crashed? stderr tail:", p.stderr[-400:], p.stdout[-400:])
             res["checks"][pid] = {"exit": p.returncode, "violation": vio[0] if vio else None, "wall_s": round(time.time() - t0, 1)}
             print(f"{sid} [{pid}]: exit={p.returncode} {vio[0] if vio else 'no violation reported'}", flush=True)
         results[sid] = res
